@@ -272,3 +272,75 @@ Example C17_unchecked_lookup_panics :
   find_overload impl types ["Id"] tMoney tMoney = FPanic /\
   patchE [(BAdd, ["Id"])] 3 (bin 53 BAdd (idt 6 "A") (idt 7 "B")) = PPanic.
 Proof. vm_compute. repeat split. Qed.
+
+(* ------------------------------------------------------------------------------------------
+   The model IS the source (GenTables): conf/operators_table.go FindSuitableOperatorOverload,
+   conf/config.go Config.Check and compiler/patcher.go operatorPatcher.Exit are read statement by
+   statement by /verif/translator/gen_tables.go on every run into gen/GenTables.v; interpreting the
+   REGENERATED statements (Ty/TableRules.v; reflect's In/Out/NumIn/NumOut/Kind/Implements and
+   node.Type() are the oracles of Ops/Overload.v, ast.Patch is Walk.patch) gives find_overload,
+   rewrite_one / panics_at and config_check, for every oracle, table, operand type and node.
+   `table_sigs_ok` (decidable): no function type of the table has a nil parameter type - a
+   description no Go type has; without it the statement is false (C17_model_overload_is_source_refuted). *)
+Require X.Ty.TableRules X.gen.GenTables X.Ops.OverloadRules X.Bridge.BrTables.
+
+Theorem C17_gentables_recognised : forallb X.Ty.TableRules.fdef_ok X.gen.GenTables.funcs = true.
+Proof. exact X.Bridge.BrTables.gentables_recognised. Qed.
+Print Assumptions C17_gentables_recognised.
+
+Theorem C17_model_overload_is_source : forall implements types cands l r fuel,
+  X.Ops.OverloadRules.table_sigs_ok types = true -> 0 < fuel ->
+  X.Ops.OverloadRules.gen_find_overload X.gen.GenTables.funcs implements types fuel cands l r
+  = Some (find_overload implements types cands l r).
+Proof. exact X.Bridge.BrTables.find_overload_bridge. Qed.
+Print Assumptions C17_model_overload_is_source.
+
+(* Exit on EVERY node: XDone (rewrite_one e), or XPanic exactly where panics_at e *)
+Theorem C17_model_patcher_is_source : forall implements types ops tyof e fuel,
+  X.Ops.OverloadRules.table_sigs_ok types = true -> 2 <= fuel ->
+  X.Ops.OverloadRules.gen_exit X.gen.GenTables.funcs implements types ops tyof fuel e
+  = Some (X.Ops.OverloadRules.exit_model implements types ops tyof e).
+Proof. exact X.Bridge.BrTables.exit_bridge. Qed.
+Print Assumptions C17_model_patcher_is_source.
+
+Theorem C17_model_patcher_rewrites : forall implements types ops tyof e fuel,
+  X.Ops.OverloadRules.table_sigs_ok types = true -> 2 <= fuel -> panics_at implements types ops tyof e = false ->
+  X.Ops.OverloadRules.gen_exit X.gen.GenTables.funcs implements types ops tyof fuel e
+  = Some (X.Ops.OverloadRules.XDone (rewrite_one implements types ops tyof e)).
+Proof. exact X.Bridge.BrTables.exit_rewrites. Qed.
+Print Assumptions C17_model_patcher_rewrites.
+
+(* Config.Check: the error it returns (ordinal of the fmt.Errorf, or the stored c.err) *)
+Theorem C17_model_config_check_is_source : forall types ops cfns err fuel, 0 < fuel ->
+  X.Ops.OverloadRules.gen_config_check X.gen.GenTables.funcs types ops cfns err fuel
+  = X.Ty.TableRules.Got (X.Ops.OverloadRules.check_outcome types ops cfns err).
+Proof. exact X.Bridge.BrTables.config_check_bridge. Qed.
+Print Assumptions C17_model_config_check_is_source.
+
+(* ... an operator error (first or second fmt.Errorf) exactly when the model's config_check rejects *)
+Theorem C17_model_config_check_gate : forall types ops cfns err fuel, 0 < fuel ->
+  (config_check types ops = false <->
+   (X.Ops.OverloadRules.gen_config_check X.gen.GenTables.funcs types ops cfns err fuel = X.Ty.TableRules.Got (Some 0) \/
+    X.Ops.OverloadRules.gen_config_check X.gen.GenTables.funcs types ops cfns err fuel = X.Ty.TableRules.Got (Some 1))
+   /\ X.Ops.OverloadRules.first_bad types ops <> FnOk).
+Proof. exact X.Bridge.BrTables.config_check_gate. Qed.
+Print Assumptions C17_model_config_check_gate.
+
+Definition C17_model_overload_is_source_full_statement : Prop := X.Bridge.BrTables.find_overload_bridge_full_statement.
+Theorem C17_model_overload_is_source_refuted :
+  find_overload (fun _ _ => false) X.Bridge.BrTables.OWit.bad_types ["f"] TBool TBool = FMiss /\
+  X.Ops.OverloadRules.gen_find_overload X.gen.GenTables.funcs (fun _ _ => false) X.Bridge.BrTables.OWit.bad_types 1 ["f"] TBool TBool
+    = Some FPanic /\
+  ~ C17_model_overload_is_source_full_statement.
+Proof. exact X.Bridge.BrTables.find_overload_bridge_refuted. Qed.
+Print Assumptions C17_model_overload_is_source_refuted.
+
+(* non-vacuity: a table with a method candidate, an interface parameter, a one-parameter function and
+   an ambiguous entry has well-formed signatures; lookup hits (plain, method, interface), misses and panics *)
+Example C17_model_overload_is_source_nonvacuous :
+  X.Ops.OverloadRules.table_sigs_ok X.Bridge.BrTables.OWit.types = true /\
+  X.Ops.OverloadRules.gen_find_overload X.gen.GenTables.funcs X.Bridge.BrTables.OWit.impl X.Bridge.BrTables.OWit.types 1
+    ["Scale"; "add"] X.Bridge.BrTables.OWit.V X.Bridge.BrTables.OWit.V = Some (FHit X.Bridge.BrTables.OWit.V "add").
+Proof.
+  exact (conj (proj1 X.Bridge.BrTables.overload_bridges_inhabited) (proj1 (proj2 X.Bridge.BrTables.overload_bridges_inhabited))).
+Qed.
